@@ -1354,3 +1354,8 @@ def m_is_some_and(ctx):
 @M.reg_re(r"^core::cmp::Ordering::(is_eq|is_ne|is_lt|is_gt|is_le|is_ge|reverse)$")
 def m_ordering_pred(ctx):
     return ctx.top_ret() if ctx.r["def"].endswith("reverse") else bool_top(ctx)
+
+
+@M.reg("core::ops::range::RangeInclusive::<Idx>::new")
+def m_range_inclusive_new(ctx):
+    return Struct("core::ops::range::RangeInclusive", [ctx.args[0], ctx.args[1], Scalar(ctx.I.const_sym(0, (0, 1), ctx.S))])
